@@ -44,6 +44,18 @@ impl InstallManifest {
         let header = InstallHeader::read(&mut cursor)?;
         header.validate()?;
 
+        // entry_count is not trusted and sizes the bit masks and the entry list:
+        // every entry takes at least a path terminator, the content key and the
+        // file size, so the rest of the input bounds how many there can be.
+        let remaining = data.len().saturating_sub(cursor.position() as usize);
+        let min_entry_size = 1 + header.ckey_length as usize + 4;
+        if header.entry_count as usize > remaining / min_entry_size {
+            return Err(InstallError::Io(std::io::Error::new(
+                std::io::ErrorKind::UnexpectedEof,
+                "entry count exceeds the size of the input",
+            )));
+        }
+
         // Parse tags
         let mut tags = Vec::with_capacity(header.tag_count as usize);
         for _ in 0..header.tag_count {
@@ -358,6 +370,16 @@ mod tests {
         assert_eq!(parsed.header.entry_count, 3);
         assert_eq!(parsed.tags.len(), 3);
         assert_eq!(parsed.entries.len(), 3);
+    }
+
+    #[test]
+    fn test_entry_count_beyond_input_rejected() {
+        let manifest = create_test_manifest();
+        let mut data = manifest.build().expect("Operation should succeed");
+
+        // Header claims u32::MAX entries: error, not a huge allocation
+        data[6..10].copy_from_slice(&u32::MAX.to_be_bytes());
+        assert!(InstallManifest::parse(&data).is_err());
     }
 
     #[test]
